@@ -91,16 +91,16 @@ report the list of refactorings, the suite result and both digests.
 '''
 
 TARGETS = {
-    'B31': 'pyx12/error_html.py (class error_html, escape_html_chars, seg_str).  Structural refactorings: extracted helpers for the error blocks of gen_seg, table lookups, loop/comprehension conversions',
-    'B32': 'pyx12/x12xml.py, pyx12/x12xml_simple.py and pyx12/xmlwriter.py.  Structural refactorings: shared helpers for the element/composite rendering, early returns, loop restructuring',
-    'B33': 'pyx12/codes.py, pyx12/dataele.py and pyx12/map_index.py.  Structural refactorings: extracted loaders, comprehension/loop conversions, early returns, dict.get for try/except KeyError where equivalent',
-    'B34': 'pyx12/x12context.py: class X12ContextReader (iter_segments, _add_segment, the counter resets) and X12SegmentDataNode.  Structural refactorings: split iter_segments into private helpers (map selection, tree building), early returns',
-    'B35': 'pyx12/map_if.py: the constructors and lookup methods (map_if, loop_if, segment_if, element_if, composite_if __init__, getnodebypath, getnodebypath2, is_match, is_match_qual, get_child_node_by_idx/ordinal).  Structural refactorings: shared attribute-or-child-text accessor, extracted helpers, early returns',
-    'B36': 'pyx12/error_handler.py: the node classes err_node, err_root, err_isa, err_gs, err_st, err_seg, err_ele, err_iter, errh_list, errh_null.  Structural refactorings: shared base-class helpers, early returns, comprehension/loop conversions',
-    'B37': 'pyx12/x12file.py: class X12Writer (Write, Close, _popToLoop, _close_*, _write_*) and X12Reader.__iter__/cleanup.  Structural refactorings: table-driven trailer construction, merged _close_iea/_close_ge/_close_se, early returns',
-    'B38': 'pyx12/scripts/x12norm.py, pyx12/scripts/x12valid.py and pyx12/params.py.  Structural refactorings: extracted option parsing and per-file functions, early returns',
-    'B39': 'pyx12/map_walker.py (second pass: _check_seg_usage, _check_loop_usage, _flush_mandatory_segs, forceWalkCounterToLoopStart, pop_to_parent_loop, get_pop_loops/get_push_loops) and pyx12/syntax.py.  Structural refactorings of a different kind than splitting: merge, inline, invert, table-drive',
-    'B40': 'pyx12/segment.py (second pass: Segment.set, get, _parse_refdes, append, __init__, Composite.__init__/__setitem__) and pyx12/validation.py (match_re, not_match_re, is_valid_time, contains_control_character).  Structural refactorings: early returns, merged branches, table lookups',
+    'B41': 'pyx12/x12file.py: X12Base._parse_segment, X12Reader._parse_segment, X12Base._int, X12Reader.cleanup, the _isa_error/_gs_error/_st_error/_seg_error family.  Structural refactorings of a different kind than "extract helper": per-segment handler methods picked from a dict, merged trailer checks driven by a small table, early returns, locals for repeated get_value calls',
+    'B42': 'pyx12/error_997.py and pyx12/error_999.py: visit_gs_post, visit_st_post, visit_seg, visit_ele, visit_root_pre/post, __get_gs_errors/__get_st_errors.  Structural refactorings: a shared private helper that builds the AK9 / AK5/IK5 segment, code tables as dicts or frozensets, loops to comprehensions, early returns',
+    'B43': 'pyx12/map_walker.py: walk_tree.walk, _is_loop_match, _goto_seg_match, _seg_not_found_error, _pop_to_parent_loop, pop_to_parent_loop, is_first_seg_match2.  Structural refactorings: split walk into phases (search current loop / pop and retry), replace while-True/break by loop conditions, early returns, locals',
+    'B44': 'pyx12/validation.py (IsValidDataType, is_valid_date, is_valid_time, the regex constants) and pyx12/dataele.py.  Structural refactorings: dispatch dict keyed by data type, extracted per-type predicates, re.fullmatch-equivalent rewrites ONLY where exactly equivalent, early returns',
+    'B45': 'pyx12/x12n_document.py (x12n_document, _reset_counter_to_isa_counts, _reset_counter_to_gs_counts).  Structural refactorings: extract the per-segment body of the main loop and the map-switching blocks (ISA/GS/ST/BHT) into private functions, sink objects gathered in a list, early continue guards',
+    'B46': 'pyx12/rawx12file.py (RawX12File.__init__, __iter__, the header parsing) and pyx12/x12file.py X12Reader.__init__/__iter__, X12Base.__init__.  Structural refactorings: extracted header parser, buffer handling through a local, loop restructuring that reads exactly the same chunks, early returns',
+    'B47': 'pyx12/nodeCounter.py and pyx12/path.py (X12Path.__init__, format, is_match, is_child_path, empty, __eq__/__hash__).  Structural refactorings: comprehension/loop conversions, regex groups through named locals, early returns, dict.get / setdefault where exactly equivalent',
+    'B48': 'pyx12/x12context.py: X12DataNode, X12LoopDataNode, X12SegmentDataNode (get_value, set_value, exists, select, add_segment, add_loop, add_node, delete, delete_segment, delete_node, copy, _get_insert_idx, _cleanup, iterate_segments, iterate_loop_segments).  Structural refactorings: shared private helpers for child insertion and lookup, generator/comprehension conversions, early returns',
+    'B49': 'pyx12/map_if.py: segment_if.is_valid, element_if.is_valid, element_if._is_valid_code, element_if._error, element_if._valid_code, composite_if.is_valid, loop_if.get_max_repeat/get_cur_count and the usage checks.  Structural refactorings: guard clauses, extracted predicates, reordered independent checks ONLY where no report order changes, locals for repeated expressions',
+    'B50': 'pyx12/xmlx12_simple.py, pyx12/error_handler.py class err_handler (add_isa_loop ... add_ele, seg_error, ele_error, close_*_loop, get_*), and pyx12/errh_xml.py.  Structural refactorings: table-driven dispatch, shared helpers, early returns, loop/comprehension conversions',
 }
 
 
